@@ -24,6 +24,10 @@ Step ==
                          /\ UNCHANGED <<reg, cells, next, rret>> /\ Log([op |-> "DecodeJSON", ix |-> j])
   \/ \E j \in 1..NBatC, w \in 1..2 : Len(insts) < MaxInst /\ insts' = Append(insts, [impl |-> "?", canon |-> "?", cid |-> 0])
                          /\ UNCHANGED <<reg, cells, next, rret>> /\ Log([op |-> "DecodeCBOR", ix |-> j])
+  \* the same tokens as payload of a COSE_Sign1 envelope, all decoded by the one Evidence value the history keeps reusing:
+  \* what it attaches must be a fresh instance every time, like the result of any other decode
+  \/ \E j \in 1..NBatC, w \in 1..2 : Len(insts) < MaxInst /\ insts' = Append(insts, [impl |-> "?", canon |-> "?", cid |-> 0])
+                         /\ UNCHANGED <<reg, cells, next, rret>> /\ Log([op |-> "DecodeCOSE", ix |-> j])
   \/ \E i \in 1..Len(insts), m \in {"setsw", "add", "setnonce", "setbad", "poke"}, w \in 1..3 :
        UNCHANGED rvars /\ Log([op |-> "Mutate", ix |-> i, how |-> m])
   \/ Len(insts) > 0 /\ insts' = <<>> /\ UNCHANGED <<reg, cells, next, rret>> /\ Log([op |-> "Drop"])
